@@ -1,4 +1,7 @@
-From AQ Require Import lib.Base model.H3Validate.
-Theorem placeholder : True.
-Proof. exact I. Qed.
-Print Assumptions placeholder.
+From AQ Require Import lib.Base model.H3Validate proofs.H3ValidateSpec proofs.H3ValidateProofs.
+Theorem validate_outcomes : forall k hs, (exists ecl, validate k hs = VOk ecl) \/ validate k hs = PErr H3_MESSAGE_ERROR.
+Proof. exact validate_outcomes_proof. Qed.
+Print Assumptions validate_outcomes.
+Theorem validated_implies_wellformed : forall k hs ecl, validate k hs = VOk ecl -> wellformed k hs.
+Proof. exact validated_implies_wellformed_proof. Qed.
+Print Assumptions validated_implies_wellformed.
